@@ -2,9 +2,12 @@
 modules under analysis, the builtins Python does not let a proxy overload (len, int, str,
 isinstance), the `re` module (compile -> SymPattern) and every compiled pattern stored in the
 module or in one of its classes."""
+import ast
 import builtins
 import contextlib
+import inspect
 import re
+import textwrap
 import types
 
 import z3
@@ -69,6 +72,18 @@ class _TypeProxy:
     def __call__(self, *a, **k):
         return self._conv(*a, **k)
 
+    def __eq__(self, other):
+        return other is self or other is self._real
+
+    def __ne__(self, other):
+        return not self.__eq__(other)
+
+    def __hash__(self):
+        return hash(self._real)
+
+    def __repr__(self):
+        return repr(self._real)
+
     def __getattr__(self, name):
         if name.startswith("__"):
             return getattr(self._real, name)
@@ -90,6 +105,8 @@ def _norm_types(t):
         return str
     if t is sym_int or t is INT_PROXY:
         return int
+    if isinstance(t, _TypeOf):
+        return builtins.type
     return t
 
 
@@ -147,13 +164,131 @@ class ReProxy:
         return self._p(pattern, flags).findall(string)
 
 
+class _TypeOf:
+    """`type(x)` for symbolic x (the 3-argument form and isinstance(x, type) still work)"""
+
+    def __call__(self, *a, **k):
+        if len(a) == 1 and not k:
+            x = a[0]
+            if isinstance(x, _cv().CV):
+                return _cv().apply(builtins.type, x)
+            if isinstance(x, SymStr):
+                return str
+            if isinstance(x, SymInt):
+                return int
+        return builtins.type(*a, **k)
+
+    def __eq__(self, other):
+        return other is self or other is builtins.type
+
+    def __hash__(self):
+        return hash(builtins.type)
+
+    def __getattr__(self, n):
+        return getattr(builtins.type, n)
+
+
 def sym_range(*a):
     return builtins.range(*[builtins.int(x) if isinstance(x, (SymInt, _cv().CV)) else x for x in a])
 
 
 STR_PROXY = _TypeProxy(str, sym_str)
 INT_PROXY = _TypeProxy(int, sym_int)
-BUILTINS = {"len": sym_len, "int": INT_PROXY, "str": STR_PROXY, "isinstance": sym_isinstance, "range": sym_range}
+BUILTINS = {"len": sym_len, "int": INT_PROXY, "str": STR_PROXY, "isinstance": sym_isinstance, "range": sym_range, "type": _TypeOf()}
+
+
+def fv_join(sep, items):
+    """`sep.join(items)` that also works when items (or the list itself) are symbolic"""
+    cvm = _cv()
+    if isinstance(items, cvm.CV):
+        return cvm.apply(lambda s_, it: s_.join(it), sep, items)
+    items = list(items)
+    if any(isinstance(x, cvm.CV) for x in items) or isinstance(sep, cvm.CV):
+        return cvm.apply(lambda s_, *it: s_.join(it), sep, *items)
+    if any(isinstance(x, SymStr) for x in items):
+        return SymStr.lift(sep).join(items)
+    return sep.join(items)
+
+
+class _JoinRewriter(ast.NodeTransformer):
+    """'<literal>'.join(x)  ->  __fv_join('<literal>', x): str.join is a C method that rejects proxies"""
+
+    def __init__(self):
+        self.hits = 0
+
+    def visit_Call(self, node):
+        self.generic_visit(node)
+        f = node.func
+        if (isinstance(f, ast.Attribute) and f.attr == "join" and isinstance(f.value, ast.Constant) and isinstance(f.value.value, str)
+                and len(node.args) == 1 and not node.keywords):
+            self.hits += 1
+            return ast.copy_location(ast.Call(func=ast.Name(id="__fv_join", ctx=ast.Load()), args=[f.value, node.args[0]], keywords=[]), node)
+        return node
+
+
+def _rewritten(fn):
+    """recompile function `fn` with literal.join(...) calls rewritten; None if not applicable"""
+    try:
+        src = textwrap.dedent(inspect.getsource(fn))
+    except (OSError, TypeError):
+        return None
+    if ".join(" not in src or "super()" in src or fn.__closure__:
+        return None
+    tree = ast.parse(src)
+    rw = _JoinRewriter()
+    tree = rw.visit(tree)
+    if not rw.hits:
+        return None
+    fdef = tree.body[0]
+    fdef.decorator_list = []
+    ast.fix_missing_locations(tree)
+    g = fn.__globals__
+    g["__fv_join"] = fv_join
+    ns = {}
+    code = compile(tree, inspect.getsourcefile(fn) or "<rewritten>", "exec")
+    exec(code, g, ns)
+    new = ns[fdef.name]
+    new.__defaults__ = fn.__defaults__
+    new.__kwdefaults__ = fn.__kwdefaults__
+    new.__qualname__ = fn.__qualname__
+    return new
+
+
+_ACTIVE = []  # stack of (target, key, original, replacement) lists of the active `patched` blocks
+
+
+@contextlib.contextmanager
+def suspended():
+    """temporarily undo every active patch (used to run native replays from inside a harness)"""
+    undone = []
+    for saved in reversed(_ACTIVE):
+        for tgt, k, old, new in reversed(saved):
+            _restore(tgt, k, old)
+            undone.append((tgt, k, new))
+    try:
+        yield
+    finally:
+        for tgt, k, new in reversed(undone):
+            if isinstance(tgt, dict):
+                tgt[k] = new
+            else:
+                setattr(tgt, k, new)
+
+
+def _restore(tgt, k, old):
+    if isinstance(tgt, dict):
+        if old is _MISSING:
+            tgt.pop(k, None)
+        else:
+            tgt[k] = old
+    else:
+        if old is _MISSING:
+            try:
+                delattr(tgt, k)
+            except AttributeError:
+                pass
+        else:
+            setattr(tgt, k, old)
 
 
 @contextlib.contextmanager
@@ -163,13 +298,14 @@ def patched(*modules, extra=None):
     proxy = ReProxy()
 
     def setg(d, k, v):
-        saved.append((d, k, d.get(k, _MISSING)))
+        saved.append((d, k, d.get(k, _MISSING), v))
         d[k] = v
 
     def setc(cls, k, v):
-        saved.append((cls, k, cls.__dict__.get(k, _MISSING)))
+        saved.append((cls, k, cls.__dict__.get(k, _MISSING), v))
         setattr(cls, k, v)
 
+    _ACTIVE.append(saved)
     try:
         for m in modules:
             d = m.__dict__
@@ -178,6 +314,24 @@ def patched(*modules, extra=None):
             if isinstance(d.get("re"), types.ModuleType):
                 setg(d, "re", proxy)
             for k, v in list(d.items()):
+                if isinstance(v, types.FunctionType) and v.__module__ == m.__name__:
+                    nv = _rewritten(v)
+                    if nv is not None:
+                        setg(d, k, nv)
+                elif isinstance(v, type) and v.__module__ == m.__name__:
+                    for ck, cvl in list(v.__dict__.items()):
+                        fnobj = cvl.fget if isinstance(cvl, property) else (cvl.__func__ if isinstance(cvl, (staticmethod, classmethod)) else cvl)
+                        if isinstance(fnobj, types.FunctionType):
+                            nv = _rewritten(fnobj)
+                            if nv is not None:
+                                if isinstance(cvl, property):
+                                    setc(v, ck, property(nv, cvl.fset, cvl.fdel))
+                                elif isinstance(cvl, staticmethod):
+                                    setc(v, ck, staticmethod(nv))
+                                elif isinstance(cvl, classmethod):
+                                    setc(v, ck, classmethod(nv))
+                                else:
+                                    setc(v, ck, nv)
                 if isinstance(v, re.Pattern):
                     setg(d, k, SymPattern(v))
                 elif isinstance(v, dict) and any(isinstance(x, re.Pattern) for x in v.values()):
@@ -193,20 +347,9 @@ def patched(*modules, extra=None):
             setg(m.__dict__, k, v)
         yield
     finally:
-        for tgt, k, old in reversed(saved):
-            if isinstance(tgt, dict):
-                if old is _MISSING:
-                    tgt.pop(k, None)
-                else:
-                    tgt[k] = old
-            else:
-                if old is _MISSING:
-                    try:
-                        delattr(tgt, k)
-                    except AttributeError:
-                        pass
-                else:
-                    setattr(tgt, k, old)
+        _ACTIVE.remove(saved)
+        for tgt, k, old, new in reversed(saved):
+            _restore(tgt, k, old)
 
 
 _MISSING = object()
